@@ -500,10 +500,25 @@ def _resolved(order, at, e):
     from where it was bound (`{{ helper(components) }}` binds the parameter `components` to the caller's `components`); a name that is
     never set stays a name."""
     idx = next((i for i, it in enumerate(order) if it is at), len(order))
+
+    def binding(name, before):
+        """index of the closest set of `name` before position `before` that is in scope there: the items of a macro expansion that
+        has ended (jmodel brackets one by ("other", "macro-begin:n") / ("other", "macro-end:n")) are skipped as a whole"""
+        i = before - 1
+        while i >= 0:
+            it = order[i]
+            if it[0] == "other" and isinstance(it[1], str) and it[1].startswith("macro-end:"):
+                tag = "macro-begin:" + it[1].split(":", 1)[1]
+                while i >= 0 and not (order[i][0] == "other" and order[i][1] == tag):
+                    i -= 1
+            elif it[0] == "set" and it[1] == name:
+                return i
+            i -= 1
+        return None
     for _ in range(8):
         if e is None or e[0] != "name":
             break
-        j = next((i for i in range(idx - 1, -1, -1) if order[i][0] == "set" and order[i][1] == e), None)
+        j = binding(e, idx)
         if j is None:
             break
         e, idx = order[j][2], j
@@ -549,6 +564,9 @@ def _covers(ctx, key, where, what, comps, complist):
         ctx.bad("R5", key, where, f"the {what} covers {J.show(complist)}", expected=J.show(complist), found=J.show(comps))
     elif [x for x in got if x in need] == need:
         ctx.ok("R5", key, where, f"the {what} covers {J.show(complist)} (and more)")
+    elif "grains" in got and "reactions" in got and got.index("grains") < got.index("reactions"):
+        # the derived quantities of the grain models are written in terms of the reactions' symbols (R3: reactions, then grains)
+        ctx.bad("R5", key, where, f"the {what} enumerates the grains before the reactions (grain quantities use the reactions' symbols)", expected=J.show(complist), found=J.show(comps))
     else:
         ctx.unrec("R5", key, where, f"the {what} enumerates the components in another order: {J.show(comps)}")
 
@@ -1400,7 +1418,20 @@ MUTANTS += [
     {"name": "thermal-process-window-constant-on", "file": TPROC, "old": "        self.temp_max = -1.0\n", "new": "        self.temp_max = 1.0e9\n", "rules": ["R11"]},
     {"name": "renderer-window-on-dust-temperature", "file": TLOADER, "old": 'f"Tgas<{r.temp_max}" if r.temp_max > 0', "new": 'f"Tdust<{r.temp_max}" if r.temp_max > 0', "rules": ["R11"]},
 ]
+JAC = "naunet/templates/cvode/src/naunet_jac.cpp.j2"
+_EVALRATES_LOOPS = ('    {% set components = network.reactions + network.grains -%}\n    {% for key, _ in components | collect_variable_items("params") -%}\n        realtype {{ key }} = u_data->{{ key }};\n    {% endfor %}\n\n'
+                    '    {% set components = network.reactions + network.grains -%}\n    {% for key, value in components | collect_variable_items("deriveds") -%}\n        realtype {{ key }} = {{ value }};\n    {% endfor %}\n')
+_DECL_MACROS = ('{% macro declare_params(components, ctype="realtype", indent=4) -%}\n{% for name, _ in components | collect_variable_items("params") -%}\n{{ " " * indent }}{{ ctype }} {{ name }} = u_data->{{ name }};\n{% endfor %}\n{%- endmacro %}\n'
+                '{% macro declare_deriveds(components, ctype="realtype", indent=4) -%}\n{% for name, expr in components | collect_variable_items("deriveds") -%}\n{{ " " * indent }}{{ ctype }} {{ name }} = {{ expr }};\n{% endfor %}\n{%- endmacro %}\n'
+                '{% macro declare_locals(components, ctype="realtype", indent=4) -%}\n{{ declare_params(components, ctype, indent) }}\n{{ declare_deriveds(components, ctype, indent) }}\n{%- endmacro %}\n')
+MUTANTS += [
+    {"name": "jacobian-declares-grains-before-reactions", "file": JAC, "old": "{% set components = network.reactions + network.grains + network.heating + network.cooling -%}",
+     "new": "{% set components = network.grains + network.reactions + network.heating + network.cooling -%}", "count": 6, "rules": ["R5"]},
+]
 BENIGN = [
+    {"name": "declarations-through-nested-macros", "edits": [
+        {"file": RATES, "old": _EVALRATES_LOOPS, "new": "{{ declare_locals(network.reactions + network.grains) }}\n"},
+        {"file": RATES, "old": '{% if general.device == "gpu" -%} __device__ {% endif -%}\nint EvalRates(', "new": _DECL_MACROS + '{% if general.device == "gpu" -%} __device__ {% endif -%}\nint EvalRates('}]},
     {"name": "init-guard-clause-raises", "file": "naunet/reactions/uclchemreaction.py", "old": '        super().__init__(react_string=react_string)\n\n        self.register("ism_cosmic_ray_ionization_rate", ("zism", 1.3e-17, vt.constant))\n',
      "new": '        super().__init__(react_string=react_string)\n        if self.reaction_type is None:\n            raise ValueError("reaction type not set")\n\n        self.register("ism_cosmic_ray_ionization_rate", ("zism", 1.3e-17, vt.constant))\n'},
     {"name": "thermal-process-window-parameters-unused", "edits": [
